@@ -548,6 +548,18 @@ Proof. intros s. unfold king_attacked. rewrite abs_attacked, abs_has. reflexivit
 Lemma abs_p_at : forall s, p_at (abs s) = piece_at (st_board s).
 Proof. reflexivity. Qed.
 
+Lemma abs_transfer : forall s,
+  attacks_from (abs s) = attacks_from (pos_of_board (st_board s)) /\
+  attacked (abs s) = attacked (pos_of_board (st_board s)) /\
+  king_attacked (abs s) = king_attacked (pos_of_board (st_board s)) /\
+  colour_at (abs s) = colour_at (pos_of_board (st_board s)) /\
+  empty_at (abs s) = empty_at (pos_of_board (st_board s)) /\
+  has (abs s) = has (pos_of_board (st_board s)).
+Proof.
+  intros s. exact (conj (abs_attacks_from s) (conj (abs_attacked s) (conj (abs_king_attacked s)
+                  (conj (abs_colour_at s) (conj (abs_empty_at s) (abs_has s)))))).
+Qed.
+
 (* ---------- the OnceCell cache ---------- *)
 
 Inductive cop := QAttacks (c : color) | QPawnAttacks (c : color) | QIsCheck (c : color)
